@@ -241,12 +241,19 @@ public:
                     if (relpos >= _q.size()) return {};
                     return _q[relpos];
                 }
+                //(skipping modes: when an item other than requested is returned, the position of
+                //the subscriber must follow it, otherwise the same item is returned again next time
+                // - this happens when the subscriber was suspended and more than one item arrived)
                 case subscribtion_type::skip_if_behind: {
                     std::size_t relpos = _pos - l._pos - 1;
-                    if (relpos >= _q.size()) relpos = _q.size()-1;
+                    if (relpos >= _q.size()) {
+                        relpos = _q.size()-1;
+                        l._pos = _pos - relpos - 1;
+                    }
                     return _q[relpos];
                 }
                 case subscribtion_type::skip_to_recent: {
+                    l._pos = _pos - 1;
                     return _q[0];
                 }
             }
